@@ -146,7 +146,7 @@ def nm2(prog, rr):
 
 
 # --------------------------------------------------------------------------------------- LW11
-@rule("LW11", ["C02", "C04", "C01", "C15", "C05"], "the constraint copier copies every expression operand and fills the matching branch", engine="DF", floor=8)
+@rule("LW11", ["C02", "C04", "C01", "C15", "C05", "C08"], "the constraint copier copies every expression operand and fills the matching branch", engine="DF", floor=8)
 def lw11(prog, rr):
     cb = prog.cls("ConstraintCopyBuilder")
     leaf_passthrough = {"visit_expr_fieldref", "visit_expr_literal", "visit_expr_indexed_fieldref"}
@@ -260,7 +260,7 @@ def rn7(prog, rr):
 
 
 # --------------------------------------------------------------------------------------- SH5
-@rule("SH5", ["C16", "C03"], "every solver session of the Randomizer (including diagnostics) disposes all fields it built", engine="DF", floor=3)
+@rule("SH5", ["C16", "C03", "C02"], "every solver session of the Randomizer (including diagnostics) disposes all fields it built", engine="DF", floor=3)
 def sh5(prog, rr):
     from rules.r40_randness import _full_field_getters
     full = _full_field_getters(prog)
